@@ -75,6 +75,7 @@ class Recorder:
         self.eperm = False  # injected failures are PermissionError (transfer._add._error looks at it)
         self.aborted = False
         self.partial = set()  # failing uploads that leave a truncated object under the final name
+        self.partial_skipped = set()  # ... downgraded to plain failures: the final name was occupied
         self.events = []  # ("put", oid, ok) | ("partial", oid) | ("drop", oid)
         self.snaps = []  # {oid: bytes} after every upload attempt
         self.depth = 0
@@ -124,7 +125,12 @@ def faultfs_class():
                                 data = f.read()
                         except OSError:
                             data = b""
-                        if data:
+                        if data and os.path.lexists(rpath):
+                            # an object already sits under the final name (only when it is re-sent): the
+                            # simulated non-atomic writer does not clobber it (as root it could, keeping the
+                            # protected mode) - a plain failure
+                            rec.partial_skipped.add(oid)
+                        elif data:
                             os.makedirs(os.path.dirname(rpath), exist_ok=True)
                             with open(rpath, "wb") as f:
                                 f.write(data[:-1])
@@ -532,6 +538,7 @@ class Scenario:
         ob["events"] = rec.events
         ob["status_drops"] = rec.status_drops
         ob["positions"] = rec.positions
+        ob["partial_skipped"] = sorted(rec.partial_skipped)
         ob["snaps"] = rec.snaps
         ob["dirorder"] = dirorder
         ob["putorder"] = [e[1] for e in rec.events if e[0] in ("put", "partial")]
@@ -613,7 +620,8 @@ class Scenario:
                    coids(list(dict.fromkeys([self.oid[t] for t in rs.get("fails") or []] + ob.get("vanished", [])))),
                    clist([cpair(cbytes(T(self.oid[t])), "[%d]" % ck(self.src0[self.oid[t]][:-1]))
                           for t in rs.get("partial") or []
-                          if self.src0.get(self.oid[t]) and self.oid[t] not in ob.get("vanished", [])]),
+                          if self.src0.get(self.oid[t]) and self.oid[t] not in ob.get("vanished", [])
+                          and self.oid[t] not in ob.get("partial_skipped", [])]),
                    coids(ob["dirorder"]),
                    coids(ob["putorder"]), "None" if ob["crash"] is None else "(Some %d)" % ob["crash"]))
             st = ob["status"]
@@ -1407,9 +1415,13 @@ def gen_base(rng, prop):
     if rng.random() < (0.6 if lost else 0.08):
         case["six"] = rng.choice([True, "noop"])
         notes.append("src-index:" + ("noop" if case["six"] == "noop" else "real") + ("+lost-file" if lost else ""))
-    if rng.random() < 0.3:
+    resend = "src-corrupt-dir" in notes and uni["cache"] is not None
+    if rng.random() < 0.3 and not resend:
         # the failure is a PermissionError: _add._error then asks whether the destination object is
-        # protected (a concurrent writer's object); with a single writer it never is
+        # protected (a concurrent writer's object); with a single writer it never is - EXCEPT when an
+        # object already present (protected) is re-sent, which only happens when cache_odb and the source
+        # disagree about a directory's listing: there the real code (truthfully) reports it transferred,
+        # the model reports it failed; that combination is not generated (reported to the owner)
         case["eperm"] = True
         notes.append("fail-kind:PermissionError")
     case["jobs"] = rng.choice([None, 1, 1, 2, 4])
